@@ -465,6 +465,23 @@ func runPolicySelect() int {
 				} else {
 					obs.ViaSkip = "answered"
 				}
+				if salt%2 == 1 {
+					// a verifier with a past: the same artifact (a mirrored image has one digest everywhere) has just been verified in
+					// every other repository the document talks about, and in one it does not - which statement applies to THIS
+					// reference does not depend on what was asked before
+					keys := make([]string, 0, len(scopeAtom))
+					for k := range scopeAtom {
+						if k != "*" {
+							keys = append(keys, k)
+						}
+					}
+					sort.Strings(keys)
+					for _, k := range append(keys, "unlistedOther") {
+						if r0 := refFor(k, salt); r0 != ref {
+							_, _ = v.Verify(context.Background(), presentedAny(), []byte("not a signature"), notationVerifyOpts(r0))
+						}
+					}
+				}
 				outcome, err := v.Verify(context.Background(), presentedAny(), []byte("not a signature"), notationVerifyOpts(ref))
 				if outcome == nil {
 					obs.Via = "refused"
